@@ -538,7 +538,8 @@ def replace_nodes_and_values(
             if old_value.const_value is not None
             else new_value.const_value
         )
-        new_value.name = old_value.name if old_value.name is not None else new_value.name
+        # An omitted (unnamed) output must not erase the name of the value that replaces it
+        new_value.name = old_value.name if old_value.name else new_value.name
 
     # Reconnect the users of the deleted values to use the new values
     replace_all_uses_with(old_values, new_values, replace_graph_outputs=True)
